@@ -28,8 +28,8 @@ import (
 	"google.golang.org/protobuf/reflect/protodesc"
 	"google.golang.org/protobuf/reflect/protoreflect"
 	"google.golang.org/protobuf/reflect/protoregistry"
-	"google.golang.org/protobuf/types/dynamicpb"
 	"google.golang.org/protobuf/types/descriptorpb"
+	"google.golang.org/protobuf/types/dynamicpb"
 	"google.golang.org/protobuf/types/known/durationpb"
 	"google.golang.org/protobuf/types/known/structpb"
 	"google.golang.org/protobuf/types/known/timestamppb"
@@ -1083,9 +1083,10 @@ func dynExtType(num int32) protoreflect.ExtensionType {
 // FamExtVal: values of proto2 extensions through the generated code (C04 / C05 / C06).  The abstract-message walkers do not
 // know extensions, so extendable corpus messages are built with the owning runtime's extension API: every extension alone
 // at four values (two ordinary ones, the zero value, an extreme one), and random subsets; ordinary fields set or unset.
-//   szok : csproto.Size = len(csproto.Marshal)                  mto: MarshalTo fills exactly Size() bytes, same bytes
-//   x1   : the owning runtime decodes csproto's bytes to an equal message
-//   x2   : csproto.Unmarshal decodes the owning runtime's bytes to an equal message
+//
+//	szok : csproto.Size = len(csproto.Marshal)                  mto: MarshalTo fills exactly Size() bytes, same bytes
+//	x1   : the owning runtime decodes csproto's bytes to an equal message
+//	x2   : csproto.Unmarshal decodes the owning runtime's bytes to an equal message
 func (d *Driver) FamExtVal(nrand int, prop string) {
 	for _, ti := range d.Types {
 		if ti.Exts == nil {
